@@ -64,14 +64,15 @@ package predicates
 //@ end
 
 //@ define alwaysReq(f k8s_internal.FitPredicateRequired) bool = forall p *v1.Pod :: k8s_internal.required(f, p)
+//@ define neverReq(f k8s_internal.FitPredicateRequired) bool = forall p *v1.Pod :: !k8s_internal.required(f, p)
 
 //@ func NewSessionPredicates
 //@   props C04
 //@   requires ssn != nil
 //@   nopanic off
 //@   note nopanic off: ssn.Cache / ssn.ClusterInfo non-nil and the dynamic types of the plugin objects handed out by the cache (type assertions) are the session's / cache's matter
-//@   assume forall p *v1.Pod :: k8s_internal.required(emptyPredicate("").IsFilterRequired, p)
-//@   note the assume LINKS the function value predicateRequired (named here through the spec-level call emptyPredicate("").IsFilterRequired, see [fallbackUsesAlwaysRequired]: a function name is not a spec expression at entry) to its verified contract [alwaysRequired]: k8s_internal.required(f, pod) is by definition (type:FitPredicateRequired) the answer f(pod)
+//@   assume forall p *v1.Pod :: k8s_internal.required(predicateRequired, p) && !k8s_internal.required(predicateNotRequired, p)
+//@   note the assume LINKS the function values predicateRequired / predicateNotRequired to their verified contracts ([alwaysRequired] / [neverRequired]): k8s_internal.required(f, pod) is by definition (type:FitPredicateRequired) the answer f(pod)
 //@   modifies *
 //@   # the table has an entry for every hard constraint
 //@   ensures [hasHostPorts] "PodFitsHostPorts" in result
@@ -89,7 +90,7 @@ package predicates
 //@   ensures [hostPortsCheckedForEveryPod] alwaysReq(result["PodFitsHostPorts"].IsPreFilterRequired) && alwaysReq(result["PodFitsHostPorts"].IsFilterRequired)
 //@   ensures [volumeBindingCheckedForEveryPod] alwaysReq(result["VolumeBinding"].IsPreFilterRequired) && alwaysReq(result["VolumeBinding"].IsFilterRequired)
 //@   ensures [dynamicResourcesCheckedForEveryPod] alwaysReq(result["DynamicResources"].IsPreFilterRequired) && alwaysReq(result["DynamicResources"].IsFilterRequired)
-//@   hint [fallbackUsesAlwaysRequired] emptyPredicate("").IsFilterRequired == predicateRequired && emptyPredicate("").IsPreFilterRequired == predicateRequired
+//@   ensures [taintsNeedNoPreFilter] neverReq(result["PodToleratesNodeTaints"].IsPreFilterRequired)
 //@   # each entry is wired to ITS upstream plugin object (the one the cache constructed under that name)
 //@   ensures [taintsWired] initiatedPlugins.TaintToleration != nil ==> k8s_internal.filterOf(result["PodToleratesNodeTaints"].Filter, initiatedPlugins.TaintToleration)
 //@   ensures [nodeAffinityWired] initiatedPlugins.NodeAffinity != nil ==> k8s_internal.filterOf(result["NodeAffinity"].Filter, initiatedPlugins.NodeAffinity) && k8s_internal.preFilterOf(result["NodeAffinity"].PreFilter, initiatedPlugins.NodeAffinity)
@@ -98,5 +99,5 @@ package predicates
 //@   ensures [volumeBindingWired] initiatedPlugins.VolumeBinding != nil ==> k8s_internal.filterOf(result["VolumeBinding"].Filter, initiatedPlugins.VolumeBinding) && k8s_internal.preFilterOf(result["VolumeBinding"].PreFilter, initiatedPlugins.VolumeBinding)
 //@   ensures [dynamicResourcesWired] initiatedPlugins.DynamicResources != nil ==> k8s_internal.filterOf(result["DynamicResources"].Filter, initiatedPlugins.DynamicResources) && k8s_internal.preFilterOf(result["DynamicResources"].PreFilter, initiatedPlugins.DynamicResources)
 //@   # the table can be evaluated (no nil function is called by evaluateTaskOnPrePredicate)
-//@   ensures [tableEvaluable] forall n in result :: result[n].IsPreFilterRequired != nil && result[n].IsFilterRequired != nil && (result[n].PreFilter != nil || result[n].IsPreFilterRequired == predicateNotRequired) && (result[n].Filter != nil || n == "MaxNodePoolResources" || n == "ConfigMap")
+//@   ensures [tableEvaluable] forall n in result :: result[n].IsPreFilterRequired != nil && result[n].IsFilterRequired != nil && (result[n].PreFilter != nil || neverReq(result[n].IsPreFilterRequired)) && (result[n].Filter != nil || n == "MaxNodePoolResources" || n == "ConfigMap")
 //@ end
